@@ -25,7 +25,7 @@ vars == <<par, cache, used, outcome, hist>>
 Params == CASE Kind = "spectrometer"  -> {"w2p", "mbp", "name"}
             [] Kind = "czerny"        -> {"order", "grating", "focal", "spacing", "angle", "acc", "mbp", "name"}
             [] Kind = "polychromator" -> {"filters", "mbw", "name"}
-Values(p) == IF p \in {"w2p", "acc"} THEN 1..5          \* 4: spectra listed in descending order, 5: a short spectrum nested in a wide one
+Values(p) == IF p \in {"w2p", "acc"} THEN 1..6          \* 4: spectra listed in descending order, 5: a short spectrum nested in a wide one, 6: the short one listed first
              ELSE IF p = "filters" THEN 1..5         \* 4: a narrow filter listed before a broad one that contains it, 5: overlapping, descending
              ELSE IF p \in {"mbp", "mbw"} THEN {1, 2, 4}
              ELSE 1..2
@@ -114,6 +114,7 @@ Layout(i) == CASE i = 1 -> << <<500, 501, 502, 504>> >>
                [] i = 3 -> << <<300, 304, 308, 312>> >>
                [] i = 4 -> << <<600, 601, 603>>, <<400, 402, 404>> >>
                [] i = 5 -> << <<400, 410, 420, 430>>, <<405, 406, 407>> >>
+               [] i = 6 -> << <<405, 406, 407>>, <<400, 410, 420, 430>> >>
 \* filters as <<central wavelength, window>>: trapezoidal ones in sets 1 - 3, tabulated transmission curves handed over with
 \* their wavelengths listed downwards in sets 4 and 5 (the range a filter covers does not depend on how its table is listed)
 FilterSet(i) == CASE i = 1 -> << <<500, 4>> >>
@@ -123,7 +124,7 @@ FilterSet(i) == CASE i = 1 -> << <<500, 4>> >>
                   [] i = 5 -> << <<660, 8>>, <<656, 6>>, <<650, 10>> >>
 
 \* the tables, for the conformance harness
-ASSUME PrintT(ToJson([tables |-> Kind, layouts |-> [i \in 1..5 |-> Layout(i)], filtersets |-> [i \in 1..5 |-> FilterSet(i)]]))
+ASSUME PrintT(ToJson([tables |-> Kind, layouts |-> [i \in 1..6 |-> Layout(i)], filtersets |-> [i \in 1..5 |-> FilterSet(i)]]))
 
 SetMin(S) == CHOOSE x \in S : \A y \in S : x <= y
 SetMax(S) == CHOOSE x \in S : \A y \in S : x >= y
